@@ -122,7 +122,11 @@ def cmd_run(a):
                                'VERIF_EVIDENCE_DIR': os.path.join(HERE, 'out', 'seed-evidence'),
                                'VERIF_OUT_DIR': os.path.join(HERE, 'out', 'seed-violations', name)})
                 viol = [l.strip() for l in out.splitlines() if l.startswith('  violated:')]
+                by_seed = dict((meta['checks'].get('%s/%s' % (p, a.tier)) or {}).get('by_seed')
+                               or {})
+                by_seed[str(a.seed)] = (rc == 1)
                 meta['checks']['%s/%s' % (p, a.tier)] = {
+                    'by_seed': by_seed,
                     'exit': rc, 'caught': rc == 1, 'wall_s': round(time.time() - t0, 1),
                     'first_violation': viol[0][:300] if viol else None,
                     'cmd': 'VERIF_REPO=<copy of /repo HEAD + patch.diff> ./check %s --tier %s '
